@@ -5,10 +5,14 @@
     proposition); proofs: Dbc/LintProofs.v.
     All statements quantify over EVERY [file] (raw bytes + any list of definitions, not only parser
     outputs, the empty file included).  unicode.IsDigit / unicode.IsUpper are parameters
-    [uni_digit] / [uni_upper]; the only fact needed is that IsUpper is A..Z on ASCII letters/digits. *)
+    [uni_digit] / [uni_upper]; the only fact needed is that IsUpper is A..Z on ASCII letters/digits.
+    Last section: the `lint` command of cmd/cantool through which a user runs the analyzers (model
+    Dbc/LintCli.v, specification and proofs Dbc/LintCliProofs.v): its source-line function is total
+    and returns the line of the diagnostic, and the command prints one block per diagnostic, never
+    crashes and fails with "one or more lint errors" iff some analyzer reports. *)
 From Coq Require Import String.
 From Coq Require Import ZArith List Bool.
-From CanVerif Require Import Dbc.Ast Dbc.Lint Dbc.LintSpec Dbc.LintProofs.
+From CanVerif Require Import Dbc.Ast Dbc.Lint Dbc.LintSpec Dbc.LintProofs Dbc.LintCli Dbc.LintCliProofs.
 Import ListNotations.
 Open Scope Z_scope.
 
@@ -216,6 +220,93 @@ Theorem C18_version : forall f,
   version_run f = Ok [] <-> forall p v, In (DVersion p v) (f_defs f) -> v = [].
 Proof. exact (run_clean (fun _ => false) is_upper_ascii (fun _ _ => eq_refl) AVersion). Qed.
 Print Assumptions C18_version.
+
+(* ------------------------------------------------------------------------------------------ *)
+(** `cantool lint` (cmd/cantool/main.go): the source line printed under every diagnostic.
+    [source_line src off] models getSourceLine(source, pos) as a function of pos.Offset; [None] is a
+    Go run-time panic (index or slice bounds out of range). *)
+
+(** total: for EVERY text and EVERY offset 0..len (the end of the text included, the empty text
+    included) the function returns - no index, no slice expression is out of range *)
+Theorem C18_source_line_total : forall (src : bytes) (off : Z),
+  0 <= off <= Z.of_nat (length src) -> exists l, source_line src off = Some l.
+Proof. exact source_line_total. Qed.
+Print Assumptions C18_source_line_total.
+
+(** ... and these are exactly the offsets for which it returns *)
+Theorem C18_source_line_domain : forall (src : bytes) (off : Z),
+  source_line src off = None <-> off < 0 \/ Z.of_nat (length src) < off.
+Proof. exact source_line_domain. Qed.
+Print Assumptions C18_source_line_domain.
+
+(** the returned line [l] is a contiguous slice of the text, [src = pre ++ l ++ post], that contains
+    the offset (or ends at it: offset at a line end / at the end of the text), contains no line feed
+    (byte 10), begins at the start of the text or right after a line feed and ends at the end of
+    the text or right before a line feed *)
+Theorem C18_source_line_shape : forall (src : bytes) (off : Z) (l : bytes),
+  source_line src off = Some l ->
+  exists pre post,
+    src = pre ++ l ++ post
+    /\ Z.of_nat (length pre) <= off <= Z.of_nat (length pre + length l)
+    /\ ~ In 10 l
+    /\ (pre = [] \/ exists pre', pre = pre' ++ [10])
+    /\ (post = [] \/ exists post', post = 10 :: post').
+Proof. exact source_line_shape. Qed.
+Print Assumptions C18_source_line_shape.
+
+(** the same as a formula: what precedes the offset back to the previous line feed, followed by what
+    follows it up to the next line feed ([upto_lf s] = [s] up to, not including, its first byte 10) *)
+Theorem C18_source_line_is_line_around : forall (src : bytes) (off : Z),
+  0 <= off <= Z.of_nat (length src) ->
+  source_line src off =
+  Some (rev (upto_lf (rev (firstn (Z.to_nat off) src))) ++ upto_lf (skipn (Z.to_nat off) src)).
+Proof. exact source_line_spec. Qed.
+Print Assumptions C18_source_line_is_line_around.
+
+(** the whole command. [files] = the files in the order of the loop, each with its name, its bytes
+    and the parser's result. Provided every position to be printed lies inside its text and has a
+    column >= 1 ([file_printable]: a fact about the parser, C04), the output is, file by file, for a
+    parse error one block, else analyzer by analyzer (the 19 of [cantool_analyzers], in that order)
+    one block [header; source line; caret under column] per owed diagnostic ([file_blocks], with
+    the diagnostics of the declarative rules [spec_diagnostics]); the run never crashes; and it ends
+    with "one or more lint errors" iff some analyzer owes a diagnostic on some parsed file (a parse
+    error alone does not make the command fail). *)
+Theorem C18_cantool_lint_output : forall (uni_digit uni_upper : Z -> bool),
+  (forall r, is_alpha_char r || is_num_char r = true -> uni_upper r = is_upper_ascii r) ->
+  forall files : list lint_input,
+    (forall fi, In fi files -> file_printable uni_digit fi) ->
+    cantool_lint_output uni_digit uni_upper files =
+    (flat_map (file_blocks uni_digit) files,
+     if existsb (file_reports uni_digit) files then ExitLintErrors else ExitOk).
+Proof. exact cantool_lint_correct. Qed.
+Print Assumptions C18_cantool_lint_output.
+
+(** the empty file through the command: one block (requireddefinitions at 1:1 with an empty source
+    line and the caret in column 1), then "one or more lint errors" *)
+Theorem C18_cantool_lint_empty_file : forall (uni_digit uni_upper : Z -> bool) (name : bytes),
+  cantool_lint_output uni_digit uni_upper [{| li_name := name; li_source := []; li_parse := Parsed [] |}] =
+  ([OHeader name {| p_line := 1; p_column := 1; p_offset := 0 |} (PAnalyzer ARequiredDefinitions) (Some MMissingRequired);
+    OSourceLine []; OCaret 0],
+   ExitLintErrors).
+Proof. exact cantool_lint_empty_file. Qed.
+Print Assumptions C18_cantool_lint_empty_file.
+
+(** non-vacuity: the text "ab\ncd" (last line without line feed): every offset 0..5 has its line; and
+    a file "BU_: A A" without trailing line feed gets its two blocks (requireddefinitions and
+    uniquenodenames, both at 1:1, each with the whole last line) *)
+Example C18_cli_nonvacuous :
+  map (source_line [97; 98; 10; 99; 100]) [0; 1; 2; 3; 4; 5; 6; -1] =
+    [Some [97; 98]; Some [97; 98]; Some [97; 98]; Some [99; 100]; Some [99; 100]; Some [99; 100]; None; None]
+  /\ source_line [] 0 = Some []
+  /\ source_line [10] 0 = Some [] /\ source_line [10] 1 = Some []
+  /\ (let src := bytes_of_string "BU_: A A" in
+      let p := {| p_line := 1; p_column := 1; p_offset := 0 |} in
+      cantool_lint_output is_num_char is_upper_ascii
+        [{| li_name := [102]; li_source := src; li_parse := Parsed [DNodes p [[65]; [65]]] |}] =
+      ([OHeader [102] p (PAnalyzer ARequiredDefinitions) (Some MMissingRequired); OSourceLine src; OCaret 0;
+        OHeader [102] p (PAnalyzer AUniqueNodeNames) (Some MDupNodeName); OSourceLine src; OCaret 0],
+       ExitLintErrors)).
+Proof. repeat split; vm_compute; reflexivity. Qed.
 
 (* ------------------------------------------------------------------------------------------ *)
 (** regression witnesses: the analyzers as they were before the fix commits violate the property *)
